@@ -32,6 +32,7 @@
 import Babylon.Core.Trace
 import Babylon.Gen.Pages
 
+set_option linter.unusedVariables false
 namespace Babylon.Pages
 open Babylon.Core
 
@@ -221,42 +222,44 @@ def remaining (th : Th) : Bool :=
   | .pop => th.pages.length < th.want
   | .push => !th.pages.isEmpty
 
-/-- the cache-level call is over: statistics, counters, and the continuation -/
-def finish (c : Cfg) (s : State) (t : Tid) (th : Th) : State :=
+/-- the cache-level call is over: statistics, counters, and the continuation.  (`none`: a refill into a
+non-empty thread buffer — never happens, `bLoop` refills only an empty buffer.) -/
+def finish (c : Cfg) (s : State) (t : Tid) (th : Th) : Option State :=
   match th.dir with
   | .pop =>
     let s1 := { s with hitSum := s.hitSum + th.hit, hitNum := s.hitNum + th.want,
                        counter := if c.count = CountMode.post then s.counter + th.want else s.counter }
     match th.cont with
     | .refill =>
-      match th.pages with
-      | p :: ps => { s1 with bufs := s1.bufs.set t ps }.setTh t { th with pages := [], out := th.out ++ [p], pc := .bLoop }
-      | [] => s1.setTh t { th with pc := .bLoop }
-    | _ => s1.setTh t { th with pc := .retWait }
+      match th.pages, s.bufs[t]? with
+      | p :: ps, some [] =>
+        some ({ s1 with bufs := s1.bufs.set t ps }.setTh t { th with pages := [], out := th.out ++ [p], pc := .bLoop })
+      | _, _ => none
+    | _ => some (s1.setTh t { th with pc := .retWait })
   | .push =>
     let s1 := { s with counter := if c.count = CountMode.post then s.counter - th.want else s.counter }
     match th.cont with
-    | .flush => s1.setTh t { th with pc := .bdNext }
-    | _ => s1.setTh t { th with pc := .retWait }
+    | .flush => some (s1.setTh t { th with pc := .bdNext })
+    | _ => some (s1.setTh t { th with pc := .retWait })
 
 /-- after the queue part: remainder loop (num above the capacity) or finish -/
-def settle (c : Cfg) (s : State) (t : Tid) (th : Th) : State :=
-  if remaining th then s.setTh t { th with pc := .rem } else finish c s t th
+def settle (c : Cfg) (s : State) (t : Tid) (th : Th) : Option State :=
+  if remaining th then some (s.setTh t { th with pc := .rem }) else finish c s t th
 
 /-- a contiguous segment is fully published -/
-def segDone (c : Cfg) (s : State) (t : Tid) (th : Th) : State :=
+def segDone (c : Cfg) (s : State) (t : Tid) (th : Th) : Option State :=
   if th.rest > 0 then
-    s.setTh t (waitOrGo { th with idx := th.idx + th.num, num := th.rest, rest := 0, i := 0 })
+    some (s.setTh t (waitOrGo { th with idx := th.idx + th.num, num := th.rest, rest := 0, i := 0 }))
   else settle c s t th
 
-def enterSt (c : Cfg) (s : State) (t : Tid) (th : Th) : State :=
-  if th.i < th.num then s.setTh t { th with pc := .fSt } else segDone c s t th
+def enterSt (c : Cfg) (s : State) (t : Tid) (th : Th) : Option State :=
+  if th.i < th.num then some (s.setTh t { th with pc := .fSt }) else segDone c s t th
 
 /-- enter `CachedPageAllocator::allocate(pages, n)` (through the counting layer, if any) -/
 def startAlloc (c : Cfg) (s : State) (t : Tid) (th : Th) (n : Nat) (cont : Cont) : State :=
   let s1 := { s with counter := if c.count = CountMode.pre then s.counter + n else s.counter }
   s1.setTh t { th with pc := .tkt, dir := .pop, cont := cont, want := n, num := min n c.cap, hit := min n c.cap,
-                       rest := 0, i := 0, pages := [] }
+                       rest := 0, i := 0 }
 
 /-- enter `CachedPageAllocator::deallocate(pages, n)` with the pages already in `th.pages` -/
 def startDealloc (c : Cfg) (s : State) (t : Tid) (th : Th) (cont : Cont) : State :=
@@ -269,259 +272,345 @@ def takeMany : List Tok → List Tok → Option (List Tok)
   | held, [] => some held
   | held, p :: ps => if p ∈ held then takeMany (held.erase p) ps else none
 
-/-! ### one step of thread `t`
-`tokIn` : the token named by the event line (upstream_alloc / create), `spur` : spurious weak-CAS failure. -/
+/-! ### one step of thread `t`, one definition per program counter
+`th` is `s.th t`; `tokIn` : the token named by the event line (upstream_alloc / create), `spur` : spurious
+weak-CAS failure. -/
+
+-- BatchPageAllocator::allocate(pages, n): n times allocate()
+def stepBLoop (c : Cfg) (s : State) (t : Tid) (th : Th) : Option (State × Option Act) :=
+  if th.need ≤ th.out.length then some (s.setTh t { th with pc := .retWait }, none)
+  else match s.bufs[t]? with
+    | some (p :: ps) => some ({ s with bufs := s.bufs.set t ps }.setTh t { th with out := th.out ++ [p] }, none)
+    | some [] => some (startAlloc c s t th c.batch .refill, none)
+    | none => none
+
+-- pop_n / push_n (callback, reverse_callback, num): ticket
+def stepTkt (c : Cfg) (s : State) (t : Tid) (th : Th) : Option (State × Option Act) :=
+  let old := s.ctr th.dir
+  let k := th.num
+  let (n1, n2) := splitRing c.cap old k
+  let o := match th.dir with | .pop => Gen.Pages.ordTicketPopN | .push => Gen.Pages.ordTicketPushN
+  some ((s.setCtr th.dir (old + k)).setTh t (waitOrGo { th with idx := old, num := n1, rest := n2, i := 0 }),
+        some (.rmw "add" (ctrLoc th.dir) 0 o old k))
+
+-- deal_n_continuously(callback, reverse_callback, index, num): wait loop
+def stepRdVer (c : Cfg) (s : State) (t : Tid) (th : Th) : Option (State × Option Act) :=
+  let tk := th.idx + th.i
+  match s.slots[tk % c.cap]? with
+  | none => none
+  | some sl =>
+    if sl.ver = expVer c.cap tk th.dir then
+      match acquire c s t tk th.dir with
+      | none => none
+      | some s1 => some (s1.setTh t (waitOrGo { th with i := th.i + 1 }), ldSlot (tk % c.cap) Gen.Pages.ordCompVer sl.ver)
+    else some (s.setTh t { th with pc := .rdOpp }, ldSlot (tk % c.cap) Gen.Pages.ordCompVer sl.ver)
+
+def stepRdOpp (c : Cfg) (s : State) (t : Tid) (th : Th) : Option (State × Option Act) :=
+  let v := s.ctr th.dir.opp
+  let needIdx := match th.dir with | .pop => v | .push => v + c.cap
+  let o := match th.dir with | .pop => Gen.Pages.ordOppPop | .push => Gen.Pages.ordOppPush
+  some (s.setTh t { th with pc := if needIdx ≤ th.idx + th.num then .cIdx else .rdVer },
+        some (.ld (ctrLoc th.dir.opp) 0 o v))
+
+-- try_push_n / try_pop_n <true,false>(reverse_callback, 1)
+def stepCIdx (c : Cfg) (s : State) (t : Tid) (th : Th) : Option (State × Option Act) :=
+  let v := s.ctr th.dir.opp
+  let o := match th.dir with | .pop => Gen.Pages.ord_try_push_n_idx | .push => Gen.Pages.ord_try_pop_n_idx
+  some (s.setTh t { th with pc := .cVer, j := v }, some (.ld (ctrLoc th.dir.opp) 0 o v))
+
+def stepCVer (c : Cfg) (s : State) (t : Tid) (th : Th) : Option (State × Option Act) :=
+  match s.slots[th.j % c.cap]? with
+  | none => none
+  | some sl =>
+    some (s.setTh t { th with pc := if sl.ver = expVer c.cap th.j th.dir.opp then .cCas else .rdVer },
+          ldSlot (th.j % c.cap) Gen.Pages.ordTryNVer sl.ver)
+
+def stepCCas (c : Cfg) (s : State) (t : Tid) (th : Th) : Option (State × Option Act) :=
+  let v := s.ctr th.dir.opp
+  let lbl (ok : Bool) : Option Act :=
+    some (.cas (ctrLoc th.dir.opp) 0 false Gen.Pages.ordTryNCas Gen.Pages.ordTryNCasFail th.j (th.j + 1) ok v)
+  if v = th.j then
+    match acquire c s t th.j th.dir.opp with
+    | none => none
+    | some s1 => some ((s1.setCtr th.dir.opp (th.j + 1)).setTh t { th with pc := .cAcq }, lbl true)
+  else some (s.setTh t { th with pc := .rdVer }, lbl false)
+
+def stepCAcq (c : Cfg) (s : State) (t : Tid) (th : Th) : Option (State × Option Act) :=
+  some (s.setTh t { th with pc := .cCb }, some (.fence .acq))
+
+def stepCCb (c : Cfg) (s : State) (t : Tid) (th : Th) (tokIn : Tok) : Option (State × Option Act) :=
+  match th.dir with
+  | .pop =>   -- reverse callback of allocate: *iter++ = _upstream->allocate()
+    if isLive c s tokIn then none
+    else some ({ s with obtained := s.obtained + 1 }.setTh t { th with pc := .cRel, carry := th.carry ++ [tokIn], hit := th.hit - 1 },
+               evTok "up_alloc" tokIn)
+  | .push =>  -- reverse callback of deallocate: _upstream->deallocate(*iter++)
+    match takeVal c s t th.j .pop with
+    | none => none
+    | some (s1, p) => some ({ s1 with returned := s1.returned + 1 }.setTh t { th with pc := .cRel }, evTok "up_free" p)
+
+def stepCRel (c : Cfg) (s : State) (t : Tid) (th : Th) : Option (State × Option Act) :=
+  some (s.setTh t { th with pc := .cSt }, some (.fence .rel))
+
+def stepCSt (c : Cfg) (s : State) (t : Tid) (th : Th) : Option (State × Option Act) :=
+  match slotVer c s th.j with
+  | none => none
+  | some v =>
+    match th.dir with
+    | .pop =>
+      match th.carry with
+      | [p] =>
+        match publish c s t th.j .push (some p) with
+        | none => none
+        | some s1 => some (s1.setTh t { th with pc := .rdVer, carry := [] }, stSlot (th.j % c.cap) Gen.Pages.ordTryNSetVer (v + 1))
+      | _ => none
+    | .push =>
+      match publish c s t th.j .pop none with
+      | none => none
+      | some s1 => some (s1.setTh t { th with pc := .rdVer }, stSlot (th.j % c.cap) Gen.Pages.ordTryNSetVer (v + 1))
+
+-- whole segment ready: fence, callback, fence, publish
+def stepFAcq (c : Cfg) (s : State) (t : Tid) (th : Th) : Option (State × Option Act) :=
+  some (s.setTh t (enterCb { th with i := 0 }), some (.fence .acq))
+
+def stepFCb (c : Cfg) (s : State) (t : Tid) (th : Th) : Option (State × Option Act) :=
+  match takeVal c s t (th.idx + th.i) .pop with
+  | none => none
+  | some (s1, p) => some (s1.setTh t (enterCb { th with i := th.i + 1, pages := th.pages ++ [p] }), none)
+
+def stepFRel (c : Cfg) (s : State) (t : Tid) (th : Th) : Option (State × Option Act) :=
+  (enterSt c s t { th with i := 0 }).map (·, some (.fence .rel))
+
+def stepFSt (c : Cfg) (s : State) (t : Tid) (th : Th) : Option (State × Option Act) :=
+  let tk := th.idx + th.i
+  match slotVer c s tk with
+  | none => none
+  | some v =>
+    match th.dir with
+    | .pop =>
+      match publish c s t tk .pop none with
+      | none => none
+      | some s1 => (enterSt c s1 t { th with i := th.i + 1 }).map (·, stSlot (tk % c.cap) Gen.Pages.ordCompSetVer (v + 1))
+    | .push =>
+      match th.pages with
+      | [] => none
+      | p :: ps =>
+        match publish c s t tk .push (some p) with
+        | none => none
+        | some s1 => (enterSt c s1 t { th with i := th.i + 1, pages := ps }).map (·, stSlot (tk % c.cap) Gen.Pages.ordCompSetVer (v + 1))
+
+-- num above the capacity: the rest goes straight to / comes straight from upstream
+def stepRem (c : Cfg) (s : State) (t : Tid) (th : Th) (tokIn : Tok) : Option (State × Option Act) :=
+  match th.dir with
+  | .pop =>
+    if isLive c s tokIn then none
+    else (settle c { s with obtained := s.obtained + 1 } t { th with pages := th.pages ++ [tokIn] }).map (·, evTok "up_alloc" tokIn)
+  | .push =>
+    match th.pages with
+    | [] => none
+    | p :: ps => (settle c { s with returned := s.returned + 1 } t { th with pages := ps }).map (·, evTok "up_free" p)
+
+-- ~CachedPageAllocator: try_pop_n<false,false>(cb, capacity())
+def stepDIdx (c : Cfg) (s : State) (t : Tid) (th : Th) : Option (State × Option Act) :=
+  let v := s.popIdx
+  let (n1, n2) := splitRing c.cap v c.cap
+  some (s.setTh t { th with pc := .dVer, j := v, num := n1, rest := n2, i := 0 }, some (.ld "popi" 0 Gen.Pages.ord_try_pop_n_idx v))
+
+def stepDVer (c : Cfg) (s : State) (t : Tid) (th : Th) : Option (State × Option Act) :=
+  let tk := th.j + th.i
+  match s.slots[tk % c.cap]? with
+  | none => none
+  | some sl =>
+    if sl.ver = expVer c.cap tk .pop then
+      match acquire c s t tk .pop with
+      | none => none
+      | some s1 =>
+        some (s1.setTh t { th with i := th.i + 1, pc := if th.i + 1 < th.num then .dVer else .dClaim },
+              ldSlot (tk % c.cap) Gen.Pages.ordTryNVer sl.ver)
+    else if th.i = 0 then some (s.setTh t { th with pc := .retWait }, ldSlot (tk % c.cap) Gen.Pages.ordTryNVer sl.ver)
+    else some (s.setTh t { th with num := th.i, rest := 0, pc := .dClaim }, ldSlot (tk % c.cap) Gen.Pages.ordTryNVer sl.ver)
+
+def stepDClaim (c : Cfg) (s : State) (t : Tid) (th : Th) : Option (State × Option Act) :=
+  some ({ s with popIdx := th.j + th.num }.setTh t { th with pc := .dAcq }, some (.st "popi" 0 Gen.Pages.ordTryNStoreIdx (th.j + th.num)))
+
+def stepDAcq (c : Cfg) (s : State) (t : Tid) (th : Th) : Option (State × Option Act) :=
+  some (s.setTh t { th with pc := .dCb, i := 0 }, some (.fence .acq))
+
+def stepDCb (c : Cfg) (s : State) (t : Tid) (th : Th) : Option (State × Option Act) :=
+  match takeVal c s t (th.j + th.i) .pop with
+  | none => none
+  | some (s1, p) =>
+    some ({ s1 with returned := s1.returned + 1 }.setTh t { th with i := th.i + 1, pc := if th.i + 1 < th.num then .dCb else .dRel },
+          evTok "up_free" p)
+
+def stepDRel (c : Cfg) (s : State) (t : Tid) (th : Th) : Option (State × Option Act) :=
+  some (s.setTh t { th with pc := .dSt, i := 0 }, some (.fence .rel))
+
+def stepDSt (c : Cfg) (s : State) (t : Tid) (th : Th) : Option (State × Option Act) :=
+  let tk := th.j + th.i
+  match slotVer c s tk with
+  | none => none
+  | some v =>
+    match publish c s t tk .pop none with
+    | none => none
+    | some s1 =>
+      let th1 := { th with i := th.i + 1 }
+      let th2 := if th1.i < th.num then th1
+                 else if th.rest > 0 then { th1 with j := th.j + th.num, num := th.rest, rest := 0, i := 0, pc := .dVer }
+                 else { th1 with pc := .retWait }
+      some (s1.setTh t th2, stSlot (tk % c.cap) Gen.Pages.ordTryNSetVer (v + 1))
+
+-- ~BatchPageAllocator: every thread buffer goes back through _upstream->deallocate
+def stepBdNext (c : Cfg) (s : State) (t : Tid) (th : Th) : Option (State × Option Act) :=
+  match th.todo with
+  | [] => some (s.setTh t { th with pc := .retWait }, none)
+  | u :: us =>
+    match s.bufs[u]? with
+    | none => none
+    | some [] => some (s.setTh t { th with todo := us }, none)
+    | some (p :: ps) =>
+      some (startDealloc c { s with bufs := s.bufs.set u [] } t { th with todo := us, pages := th.pages ++ p :: ps } .flush, none)
+
+-- ObjectPool::push
+def stepPRecycle (c : Cfg) (s : State) (t : Tid) (th : Th) : Option (State × Option Act) :=
+  match th.pages with
+  | [o] =>
+    let s1 := { s with recLog := o :: s.recLog }
+    match c.mode with
+    | .poolAuto => some (s1.setTh t { th with pc := .gPop }, evTok "recycle" o)
+    | _ => some (s1.setTh t { th with pc := .sTkt, dir := .push }, evTok "recycle" o)
+  | _ => none
+
+def stepGPop (c : Cfg) (s : State) (t : Tid) (th : Th) : Option (State × Option Act) :=
+  some (s.setTh t { th with pc := .gPush, j := s.popIdx }, some (.ld "popi" 0 Gen.Pages.ordSizePop s.popIdx))
+
+def stepGPush (c : Cfg) (s : State) (t : Tid) (th : Th) : Option (State × Option Act) :=
+  let size := if s.pushIdx > th.j then s.pushIdx - th.j else 0
+  if c.poolCap ≤ size then some (s.setTh t { th with pc := .pDestroy }, some (.ld "pushi" 0 Gen.Pages.ordSizePush s.pushIdx))
+  else some (s.setTh t { th with pc := .tkt, dir := .push, cont := .top, want := 1, num := min 1 c.cap, rest := 0, i := 0 },
+             some (.ld "pushi" 0 Gen.Pages.ordSizePush s.pushIdx))
+
+def stepPDestroy (c : Cfg) (s : State) (t : Tid) (th : Th) : Option (State × Option Act) :=
+  match th.pages with
+  | [o] => some ({ s with returned := s.returned + 1 }.setTh t { th with pc := .retWait, pages := [] }, evTok "up_free" o)
+  | _ => none
+
+-- single push<true,false,true> / pop<true,true,false>
+def stepSTkt (c : Cfg) (s : State) (t : Tid) (th : Th) : Option (State × Option Act) :=
+  let old := s.ctr th.dir
+  let o := match th.dir with | .pop => Gen.Pages.ordTicket1Pop | .push => Gen.Pages.ordTicket1Push
+  some ((s.setCtr th.dir (old + 1)).setTh t { th with pc := .dlWait, idx := old }, some (.rmw "add" (ctrLoc th.dir) 0 o old 1))
+
+def stepDlWait (c : Cfg) (s : State) (t : Tid) (th : Th) : Option (State × Option Act) :=
+  match acquire c s t th.idx th.dir with
+  | none => none
+  | some s1 => some (s1.setTh t { th with pc := if th.dir = .pop then .dlCb else .dlPub }, none)
+
+def stepDlCb (c : Cfg) (s : State) (t : Tid) (th : Th) : Option (State × Option Act) :=
+  match takeVal c s t th.idx .pop with
+  | none => none
+  | some (s1, p) => some (s1.setTh t { th with pc := .dlPub, pages := th.pages ++ [p] }, none)
+
+def stepDlPub (c : Cfg) (s : State) (t : Tid) (th : Th) : Option (State × Option Act) :=
+  match slotVer c s th.idx with
+  | none => none
+  | some v =>
+    match th.dir with
+    | .pop =>
+      match publish c s t th.idx .pop none with
+      | none => none
+      | some s1 => some (s1.setTh t { th with pc := .retWait }, stSlot (th.idx % c.cap) Gen.Pages.ordDealSetVer (v + 1))
+    | .push =>
+      match th.pages with
+      | [o] =>
+        match publish c s t th.idx .push (some o) with
+        | none => none
+        | some s1 =>
+          some (s1.setTh t { th with pc := .retWait, pages := [] },
+                some (.xchg "slot" (slotOff (th.idx % c.cap)) Gen.Pages.ordDealXchg (verWord v) (verWord (v + 1))))
+      | _ => none
+
+-- try_pop<true,false>
+def stepSIdx (c : Cfg) (s : State) (t : Tid) (th : Th) : Option (State × Option Act) :=
+  some (s.setTh t { th with pc := .sVer, j := s.popIdx }, some (.ld "popi" 0 Gen.Pages.ordTry1Idx s.popIdx))
+
+def stepSVer (c : Cfg) (s : State) (t : Tid) (th : Th) : Option (State × Option Act) :=
+  match s.slots[th.j % c.cap]? with
+  | none => none
+  | some sl =>
+    some (s.setTh t { th with pc := if sl.ver = expVer c.cap th.j .pop then .sCas else .sIdx2 },
+          ldSlot (th.j % c.cap) Gen.Pages.ordTry1Ver sl.ver)
+
+def stepSIdx2 (c : Cfg) (s : State) (t : Tid) (th : Th) : Option (State × Option Act) :=
+  let v := s.popIdx
+  if v = th.j then some (s.setTh t { th with pc := .retWait }, some (.ld "popi" 0 Gen.Pages.ordTry1Idx2 v))
+  else some (s.setTh t { th with pc := .sVer, j := v }, some (.ld "popi" 0 Gen.Pages.ordTry1Idx2 v))
+
+def stepSCas (c : Cfg) (s : State) (t : Tid) (th : Th) (spur : Bool) : Option (State × Option Act) :=
+  let v := s.popIdx
+  let lbl (ok : Bool) : Option Act :=
+    some (.cas "popi" 0 true Gen.Pages.ordTry1Cas Gen.Pages.ordTry1CasFail th.j (th.j + 1) ok v)
+  if v = th.j ∧ spur = false then
+    match acquire c s t th.j .pop with
+    | none => none
+    | some s1 => some ({ s1 with popIdx := th.j + 1 }.setTh t { th with pc := .sCb }, lbl true)
+  else some (s.setTh t { th with pc := .sVer, j := v }, lbl false)
+
+def stepSCb (c : Cfg) (s : State) (t : Tid) (th : Th) : Option (State × Option Act) :=
+  match takeVal c s t th.j .pop with
+  | none => none
+  | some (s1, p) => some (s1.setTh t { th with pc := .sPub, pages := th.pages ++ [p] }, none)
+
+def stepSPub (c : Cfg) (s : State) (t : Tid) (th : Th) : Option (State × Option Act) :=
+  match slotVer c s th.j with
+  | none => none
+  | some v =>
+    match publish c s t th.j .pop none with
+    | none => none
+    | some s1 => some (s1.setTh t { th with pc := .retWait }, stSlot (th.j % c.cap) Gen.Pages.ordTry1SetVer (v + 1))
+
 def stepThread (c : Cfg) (s : State) (t : Tid) (tokIn : Tok) (spur : Bool) : Option (State × Option Act) :=
   let th := s.th t
   match th.pc with
   | .idle | .retWait => none
-  -- BatchPageAllocator::allocate(pages, n): n times allocate()
-  | .bLoop =>
-    if th.need ≤ th.out.length then some (s.setTh t { th with pc := .retWait }, none)
-    else match s.bufs[t]? with
-      | some (p :: ps) => some ({ s with bufs := s.bufs.set t ps }.setTh t { th with out := th.out ++ [p] }, none)
-      | some [] => some (startAlloc c s t th c.batch .refill, none)
-      | none => none
-  -- pop_n / push_n (callback, reverse_callback, num): ticket
-  | .tkt =>
-    let old := s.ctr th.dir
-    let k := th.num
-    let (n1, n2) := splitRing c.cap old k
-    let o := match th.dir with | .pop => Gen.Pages.ordTicketPopN | .push => Gen.Pages.ordTicketPushN
-    some ((s.setCtr th.dir (old + k)).setTh t (waitOrGo { th with idx := old, num := n1, rest := n2, i := 0 }),
-          some (.rmw "add" (ctrLoc th.dir) 0 o old k))
-  -- deal_n_continuously(callback, reverse_callback, index, num): wait loop
-  | .rdVer =>
-    let tk := th.idx + th.i
-    match s.slots[tk % c.cap]? with
-    | none => none
-    | some sl =>
-      if sl.ver = expVer c.cap tk th.dir then
-        match acquire c s t tk th.dir with
-        | none => none
-        | some s1 => some (s1.setTh t (waitOrGo { th with i := th.i + 1 }), ldSlot (tk % c.cap) Gen.Pages.ordCompVer sl.ver)
-      else some (s.setTh t { th with pc := .rdOpp }, ldSlot (tk % c.cap) Gen.Pages.ordCompVer sl.ver)
-  | .rdOpp =>
-    let v := s.ctr th.dir.opp
-    let needIdx := match th.dir with | .pop => v | .push => v + c.cap
-    let o := match th.dir with | .pop => Gen.Pages.ordOppPop | .push => Gen.Pages.ordOppPush
-    some (s.setTh t { th with pc := if needIdx ≤ th.idx + th.num then .cIdx else .rdVer },
-          some (.ld (ctrLoc th.dir.opp) 0 o v))
-  -- try_push_n / try_pop_n <true,false>(reverse_callback, 1)
-  | .cIdx =>
-    let v := s.ctr th.dir.opp
-    let o := match th.dir with | .pop => Gen.Pages.ord_try_push_n_idx | .push => Gen.Pages.ord_try_pop_n_idx
-    some (s.setTh t { th with pc := .cVer, j := v }, some (.ld (ctrLoc th.dir.opp) 0 o v))
-  | .cVer =>
-    match s.slots[th.j % c.cap]? with
-    | none => none
-    | some sl =>
-      some (s.setTh t { th with pc := if sl.ver = expVer c.cap th.j th.dir.opp then .cCas else .rdVer },
-            ldSlot (th.j % c.cap) Gen.Pages.ordTryNVer sl.ver)
-  | .cCas =>
-    let v := s.ctr th.dir.opp
-    let lbl (ok : Bool) : Option Act :=
-      some (.cas (ctrLoc th.dir.opp) 0 false Gen.Pages.ordTryNCas Gen.Pages.ordTryNCasFail th.j (th.j + 1) ok v)
-    if v = th.j then
-      match acquire c s t th.j th.dir.opp with
-      | none => none
-      | some s1 => some ((s1.setCtr th.dir.opp (th.j + 1)).setTh t { th with pc := .cAcq }, lbl true)
-    else some (s.setTh t { th with pc := .rdVer }, lbl false)
-  | .cAcq => some (s.setTh t { th with pc := .cCb }, some (.fence .acq))
-  | .cCb =>
-    match th.dir with
-    | .pop =>   -- reverse callback of allocate: *iter++ = _upstream->allocate()
-      if isLive c s tokIn then none
-      else some ({ s with obtained := s.obtained + 1 }.setTh t { th with pc := .cRel, carry := [tokIn], hit := th.hit - 1 },
-                 evTok "up_alloc" tokIn)
-    | .push =>  -- reverse callback of deallocate: _upstream->deallocate(*iter++)
-      match takeVal c s t th.j .pop with
-      | none => none
-      | some (s1, p) => some ({ s1 with returned := s1.returned + 1 }.setTh t { th with pc := .cRel }, evTok "up_free" p)
-  | .cRel => some (s.setTh t { th with pc := .cSt }, some (.fence .rel))
-  | .cSt =>
-    match slotVer c s th.j with
-    | none => none
-    | some v =>
-      match th.dir with
-      | .pop =>
-        match th.carry with
-        | [p] =>
-          match publish c s t th.j .push (some p) with
-          | none => none
-          | some s1 => some (s1.setTh t { th with pc := .rdVer, carry := [] }, stSlot (th.j % c.cap) Gen.Pages.ordTryNSetVer (v + 1))
-        | _ => none
-      | .push =>
-        match publish c s t th.j .pop none with
-        | none => none
-        | some s1 => some (s1.setTh t { th with pc := .rdVer }, stSlot (th.j % c.cap) Gen.Pages.ordTryNSetVer (v + 1))
-  -- whole segment ready: fence, callback, fence, publish
-  | .fAcq => some (s.setTh t (enterCb { th with i := 0 }), some (.fence .acq))
-  | .fCb =>
-    match takeVal c s t (th.idx + th.i) .pop with
-    | none => none
-    | some (s1, p) => some (s1.setTh t (enterCb { th with i := th.i + 1, pages := th.pages ++ [p] }), none)
-  | .fRel => some (enterSt c s t { th with i := 0 }, some (.fence .rel))
-  | .fSt =>
-    let tk := th.idx + th.i
-    match slotVer c s tk with
-    | none => none
-    | some v =>
-      match th.dir with
-      | .pop =>
-        match publish c s t tk .pop none with
-        | none => none
-        | some s1 => some (enterSt c s1 t { th with i := th.i + 1 }, stSlot (tk % c.cap) Gen.Pages.ordCompSetVer (v + 1))
-      | .push =>
-        match th.pages with
-        | [] => none
-        | p :: ps =>
-          match publish c s t tk .push (some p) with
-          | none => none
-          | some s1 => some (enterSt c s1 t { th with i := th.i + 1, pages := ps }, stSlot (tk % c.cap) Gen.Pages.ordCompSetVer (v + 1))
-  -- num above the capacity: the rest goes straight to / comes straight from upstream
-  | .rem =>
-    match th.dir with
-    | .pop =>
-      if isLive c s tokIn then none
-      else some (settle c { s with obtained := s.obtained + 1 } t { th with pages := th.pages ++ [tokIn] }, evTok "up_alloc" tokIn)
-    | .push =>
-      match th.pages with
-      | [] => none
-      | p :: ps => some (settle c { s with returned := s.returned + 1 } t { th with pages := ps }, evTok "up_free" p)
-  -- ~CachedPageAllocator: try_pop_n<false,false>(cb, capacity())
-  | .dIdx =>
-    let v := s.popIdx
-    let (n1, n2) := splitRing c.cap v c.cap
-    some (s.setTh t { th with pc := .dVer, j := v, num := n1, rest := n2, i := 0 }, some (.ld "popi" 0 Gen.Pages.ord_try_pop_n_idx v))
-  | .dVer =>
-    let tk := th.j + th.i
-    match s.slots[tk % c.cap]? with
-    | none => none
-    | some sl =>
-      if sl.ver = expVer c.cap tk .pop then
-        match acquire c s t tk .pop with
-        | none => none
-        | some s1 =>
-          some (s1.setTh t { th with i := th.i + 1, pc := if th.i + 1 < th.num then .dVer else .dClaim },
-                ldSlot (tk % c.cap) Gen.Pages.ordTryNVer sl.ver)
-      else if th.i = 0 then some (s.setTh t { th with pc := .retWait }, ldSlot (tk % c.cap) Gen.Pages.ordTryNVer sl.ver)
-      else some (s.setTh t { th with num := th.i, rest := 0, pc := .dClaim }, ldSlot (tk % c.cap) Gen.Pages.ordTryNVer sl.ver)
-  | .dClaim =>
-    some ({ s with popIdx := th.j + th.num }.setTh t { th with pc := .dAcq }, some (.st "popi" 0 Gen.Pages.ordTryNStoreIdx (th.j + th.num)))
-  | .dAcq => some (s.setTh t { th with pc := .dCb, i := 0 }, some (.fence .acq))
-  | .dCb =>
-    match takeVal c s t (th.j + th.i) .pop with
-    | none => none
-    | some (s1, p) =>
-      some ({ s1 with returned := s1.returned + 1 }.setTh t { th with i := th.i + 1, pc := if th.i + 1 < th.num then .dCb else .dRel },
-            evTok "up_free" p)
-  | .dRel => some (s.setTh t { th with pc := .dSt, i := 0 }, some (.fence .rel))
-  | .dSt =>
-    let tk := th.j + th.i
-    match slotVer c s tk with
-    | none => none
-    | some v =>
-      match publish c s t tk .pop none with
-      | none => none
-      | some s1 =>
-        let th1 := { th with i := th.i + 1 }
-        let th2 := if th1.i < th.num then th1
-                   else if th.rest > 0 then { th1 with j := th.j + th.num, num := th.rest, rest := 0, i := 0, pc := .dVer }
-                   else { th1 with pc := .retWait }
-        some (s1.setTh t th2, stSlot (tk % c.cap) Gen.Pages.ordTryNSetVer (v + 1))
-  -- ~BatchPageAllocator: every thread buffer goes back through _upstream->deallocate
-  | .bdNext =>
-    match th.todo with
-    | [] => some (s.setTh t { th with pc := .retWait }, none)
-    | u :: us =>
-      match s.bufs[u]? with
-      | none => none
-      | some [] => some (s.setTh t { th with todo := us }, none)
-      | some (p :: ps) =>
-        some (startDealloc c { s with bufs := s.bufs.set u [] } t { th with todo := us, pages := p :: ps } .flush, none)
-  -- ObjectPool::push
-  | .pRecycle =>
-    match th.pages with
-    | [o] =>
-      let s1 := { s with recLog := o :: s.recLog }
-      match c.mode with
-      | .poolAuto => some (s1.setTh t { th with pc := .gPop }, evTok "recycle" o)
-      | _ => some (s1.setTh t { th with pc := .sTkt, dir := .push }, evTok "recycle" o)
-    | _ => none
-  | .gPop => some (s.setTh t { th with pc := .gPush, j := s.popIdx }, some (.ld "popi" 0 Gen.Pages.ordSizePop s.popIdx))
-  | .gPush =>
-    let size := if s.pushIdx > th.j then s.pushIdx - th.j else 0
-    if c.poolCap ≤ size then some (s.setTh t { th with pc := .pDestroy }, some (.ld "pushi" 0 Gen.Pages.ordSizePush s.pushIdx))
-    else some (s.setTh t { th with pc := .tkt, dir := .push, cont := .top, want := 1, num := min 1 c.cap, rest := 0, i := 0 },
-               some (.ld "pushi" 0 Gen.Pages.ordSizePush s.pushIdx))
-  | .pDestroy =>
-    match th.pages with
-    | [o] => some ({ s with returned := s.returned + 1 }.setTh t { th with pc := .retWait, pages := [] }, evTok "up_free" o)
-    | _ => none
-  -- single push<true,false,true> / pop<true,true,false>
-  | .sTkt =>
-    let old := s.ctr th.dir
-    let o := match th.dir with | .pop => Gen.Pages.ordTicket1Pop | .push => Gen.Pages.ordTicket1Push
-    some ((s.setCtr th.dir (old + 1)).setTh t { th with pc := .dlWait, idx := old }, some (.rmw "add" (ctrLoc th.dir) 0 o old 1))
-  | .dlWait =>
-    match acquire c s t th.idx th.dir with
-    | none => none
-    | some s1 => some (s1.setTh t { th with pc := if th.dir = .pop then .dlCb else .dlPub }, none)
-  | .dlCb =>
-    match takeVal c s t th.idx .pop with
-    | none => none
-    | some (s1, p) => some (s1.setTh t { th with pc := .dlPub, pages := [p] }, none)
-  | .dlPub =>
-    match slotVer c s th.idx with
-    | none => none
-    | some v =>
-      match th.dir with
-      | .pop =>
-        match publish c s t th.idx .pop none with
-        | none => none
-        | some s1 => some (s1.setTh t { th with pc := .retWait }, stSlot (th.idx % c.cap) Gen.Pages.ordDealSetVer (v + 1))
-      | .push =>
-        match th.pages with
-        | [o] =>
-          match publish c s t th.idx .push (some o) with
-          | none => none
-          | some s1 =>
-            some (s1.setTh t { th with pc := .retWait, pages := [] },
-                  some (.xchg "slot" (slotOff (th.idx % c.cap)) Gen.Pages.ordDealXchg (verWord v) (verWord (v + 1))))
-        | _ => none
-  -- try_pop<true,false>
-  | .sIdx => some (s.setTh t { th with pc := .sVer, j := s.popIdx }, some (.ld "popi" 0 Gen.Pages.ordTry1Idx s.popIdx))
-  | .sVer =>
-    match s.slots[th.j % c.cap]? with
-    | none => none
-    | some sl =>
-      some (s.setTh t { th with pc := if sl.ver = expVer c.cap th.j .pop then .sCas else .sIdx2 },
-            ldSlot (th.j % c.cap) Gen.Pages.ordTry1Ver sl.ver)
-  | .sIdx2 =>
-    let v := s.popIdx
-    if v = th.j then some (s.setTh t { th with pc := .retWait, pages := [] }, some (.ld "popi" 0 Gen.Pages.ordTry1Idx2 v))
-    else some (s.setTh t { th with pc := .sVer, j := v }, some (.ld "popi" 0 Gen.Pages.ordTry1Idx2 v))
-  | .sCas =>
-    let v := s.popIdx
-    let lbl (ok : Bool) : Option Act :=
-      some (.cas "popi" 0 true Gen.Pages.ordTry1Cas Gen.Pages.ordTry1CasFail th.j (th.j + 1) ok v)
-    if v = th.j ∧ spur = false then
-      match acquire c s t th.j .pop with
-      | none => none
-      | some s1 => some ({ s1 with popIdx := th.j + 1 }.setTh t { th with pc := .sCb }, lbl true)
-    else some (s.setTh t { th with pc := .sVer, j := v }, lbl false)
-  | .sCb =>
-    match takeVal c s t th.j .pop with
-    | none => none
-    | some (s1, p) => some (s1.setTh t { th with pc := .sPub, pages := [p] }, none)
-  | .sPub =>
-    match slotVer c s th.j with
-    | none => none
-    | some v =>
-      match publish c s t th.j .pop none with
-      | none => none
-      | some s1 => some (s1.setTh t { th with pc := .retWait }, stSlot (th.j % c.cap) Gen.Pages.ordTry1SetVer (v + 1))
+  | .bLoop => stepBLoop c s t th
+  | .tkt => stepTkt c s t th
+  | .rdVer => stepRdVer c s t th
+  | .rdOpp => stepRdOpp c s t th
+  | .cIdx => stepCIdx c s t th
+  | .cVer => stepCVer c s t th
+  | .cCas => stepCCas c s t th
+  | .cAcq => stepCAcq c s t th
+  | .cCb => stepCCb c s t th tokIn
+  | .cRel => stepCRel c s t th
+  | .cSt => stepCSt c s t th
+  | .fAcq => stepFAcq c s t th
+  | .fCb => stepFCb c s t th
+  | .fRel => stepFRel c s t th
+  | .fSt => stepFSt c s t th
+  | .rem => stepRem c s t th tokIn
+  | .dIdx => stepDIdx c s t th
+  | .dVer => stepDVer c s t th
+  | .dClaim => stepDClaim c s t th
+  | .dAcq => stepDAcq c s t th
+  | .dCb => stepDCb c s t th
+  | .dRel => stepDRel c s t th
+  | .dSt => stepDSt c s t th
+  | .bdNext => stepBdNext c s t th
+  | .pRecycle => stepPRecycle c s t th
+  | .gPop => stepGPop c s t th
+  | .gPush => stepGPush c s t th
+  | .pDestroy => stepPDestroy c s t th
+  | .sTkt => stepSTkt c s t th
+  | .dlWait => stepDlWait c s t th
+  | .dlCb => stepDlCb c s t th
+  | .dlPub => stepDlPub c s t th
+  | .sIdx => stepSIdx c s t th
+  | .sVer => stepSVer c s t th
+  | .sIdx2 => stepSIdx2 c s t th
+  | .sCas => stepSCas c s t th spur
+  | .sCb => stepSCb c s t th
+  | .sPub => stepSPub c s t th
 
 /-! ### calls and returns (harness events) -/
 inductive Op
@@ -539,50 +628,44 @@ def callOp (c : Cfg) (s : State) (t : Tid) (op : Op) : Option State :=
   if th.pc ≠ .idle then none else
   match op with
   | .alloc n =>
-    if c.batch > 0 then some (s.setTh t { th with kind := .alloc, pc := .bLoop, need := n, out := [] })
+    if c.mode ≠ Mode.pages then none
+    else if c.batch > 0 then some (s.setTh t { th with kind := .alloc, pc := .bLoop, need := n })
     else some (startAlloc c s t { th with kind := .alloc } n .top)
   | .dealloc ps =>
+    if c.mode ≠ Mode.pages then none else
     match takeMany s.held ps with
     | none => none
-    | some h => some (startDealloc c { s with held := h } t { th with kind := .dealloc, pages := ps } .top)
-  | .dtor => some (s.setTh t { th with kind := .dtor, pc := .dIdx })
-  | .bdtor order => some (s.setTh t { th with kind := .bdtor, pc := .bdNext, todo := order })
+    | some h => some (startDealloc c { s with held := h } t { th with kind := .dealloc, pages := th.pages ++ ps } .top)
+  | .dtor => if c.mode ≠ Mode.pages then none else some (s.setTh t { th with kind := .dtor, pc := .dIdx })
+  | .bdtor order => if c.mode ≠ Mode.pages then none else some (s.setTh t { th with kind := .bdtor, pc := .bdNext, todo := order })
   | .inject o =>
     if isLive c s o then none else some { s with held := s.held ++ [o], obtained := s.obtained + 1 }
   | .pop =>
     match c.mode with
     | .poolAuto => some (startAlloc c s t { th with kind := .pop } 1 .top)
-    | .poolStrict => some (s.setTh t { th with kind := .pop, pc := .sTkt, dir := .pop, pages := [] })
+    | .poolStrict => some (s.setTh t { th with kind := .pop, pc := .sTkt, dir := .pop })
     | .pages => none
   | .tryPop =>
     match c.mode with
     | .pages => none
-    | _ => some (s.setTh t { th with kind := .tryPop, pc := .sIdx, dir := .pop, pages := [] })
+    | _ => some (s.setTh t { th with kind := .tryPop, pc := .sIdx, dir := .pop })
   | .push o =>
     match c.mode with
     | .pages => none
     | _ =>
       if o ∈ s.held then
-        some ({ s with held := s.held.erase o, pushLog := o :: s.pushLog }.setTh t { th with kind := .push, pc := .pRecycle, pages := [o] })
+        some ({ s with held := s.held.erase o, pushLog := o :: s.pushLog }.setTh t { th with kind := .push, pc := .pRecycle, pages := th.pages ++ [o] })
       else none
 
-/-- the tokens a finished call hands to its caller -/
-def Th.result (c : Cfg) (th : Th) : List Tok :=
-  match th.kind with
-  | .alloc => if c.batch > 0 then th.out else th.pages
-  | .pop | .tryPop => th.pages
-  | _ => []
+/-- the tokens a finished call hands to its caller: everything the thread still has in flight (for
+`deallocate`, `push` and the destructors that is nothing, which the lock-step replay checks) -/
+def Th.result (th : Th) : List Tok := th.pages ++ th.out ++ th.carry
 
 /-- `ret` event: the result goes to the caller place -/
 def retOp (c : Cfg) (s : State) (t : Tid) : Option State :=
   let th := s.th t
   if th.pc ≠ .retWait then none else
-  match th.kind with
-  | .alloc =>
-    if c.batch > 0 then some ({ s with held := s.held ++ th.out }.setTh t { th with pc := .idle, kind := .none, out := [] })
-    else some ({ s with held := s.held ++ th.pages }.setTh t { th with pc := .idle, kind := .none, pages := [] })
-  | .pop | .tryPop => some ({ s with held := s.held ++ th.pages }.setTh t { th with pc := .idle, kind := .none, pages := [] })
-  | _ => some (s.setTh t { th with pc := .idle, kind := .none })
+  some ({ s with held := s.held ++ th.result }.setTh t { th with pc := .idle, kind := .none, pages := [], out := [], carry := [] })
 
 /-- The transition relation: a thread `t < nthreads` takes its next internal step, starts a call the
 client contract allows (`callOp` checks it), or returns. -/
